@@ -161,6 +161,26 @@ func c10Check(cs []tcue, f int64, spare int, styled bool) string {
 		}
 		seen[it] = true
 	}
+	// a second pass with the same period after the pieces have been moved (a sync in between): what was cut before
+	// says nothing about where the multiples of f lie now
+	if len(got) > 0 && len(got) <= 200 {
+		d := f/2 + 1
+		moved := make([]tcue, len(got))
+		for k, g := range got {
+			moved[k] = tcue{g.S + d, g.E + d, g.T}
+		}
+		if moved[0].S >= 0 {
+			if p := guard(func() { sub.Add(time.Duration(d)); sub.Fragment(time.Duration(f)) }); p != "" {
+				return p
+			}
+			exp2, got2 := c10Spec(moved, f), cuesOf(sub.Items)
+			sortCues(exp2)
+			sortCues(got2)
+			if fmtCues(exp2) != fmtCues(got2) {
+				return fmt.Sprintf("Fragment(%d), Add(%d), Fragment(%d) on %s: got %s, per-cue cutting of the moved pieces gives %s", f, d, f, fmtCues(in), fmtCues(got2), fmtCues(exp2))
+			}
+		}
+	}
 	return ""
 }
 
